@@ -232,4 +232,79 @@ theorem parseTransaction_toks (t : Tx) (ht : t.wf = true) (ln o : Nat) (x : Toke
   simp only [toRange, hpos]
   simp [Tx.expected]
 
+theorem toksFrom_length (j : Journal) : ∀ ln o, 2 * j.length + 1 ≤ (toksFrom j ln o).length := by
+  induction j with
+  | nil => intro _ _; simp [toksFrom]
+  | cons t ts ih =>
+    intro ln o
+    cases ts with
+    | nil => simp [toksFrom, Tx.toks, Tx.headerToks]
+    | cons t2 ts =>
+      have := ih (ln + t.postings.length + 2) (o + t.print.length + 1)
+      simp only [toksFrom, List.length_append, List.length_cons, Tx.toks, Tx.headerToks, List.length_nil] at this ⊢
+      omega
+
+theorem eofP_ty (ln o : Nat) : (eofP ln o).ty = .eof := rfl
+
+/-- **The journal loop** on the token stream of a printed journal, any number of transactions:
+    the transactions as written, nothing else, and not one error added. -/
+theorem parseJournalF_toks (j : Journal) (hj : WF j = true) :
+    ∀ (ln o n : Nat) (errs : List ParseError) (dy : Int), 2 * j.length ≤ n →
+      ∃ st', parseJournalF (E cls) n (stOf (toksFrom j ln o) errs dy) =
+        (⟨expectedTxs j ln o, [], [], []⟩, st') ∧ st'.errors = errs := by
+  induction j with
+  | nil =>
+    intro ln o n errs dy _
+    refine ⟨stOf (toksFrom [] ln o) errs dy, ?_, rfl⟩
+    cases n with
+    | zero => rfl
+    | succ n => simp [parseJournalF, toksFrom, eofP_ty, expectedTxs, jempty]
+  | cons t ts ih =>
+    intro ln o n errs dy hn
+    simp only [WF, List.all_cons, Bool.and_eq_true] at hj
+    obtain ⟨n, rfl⟩ : ∃ m, n = m + 1 := ⟨n - 1, by simp at hn; omega⟩
+    have hdate : ∀ L, (stOf (t.toks ln o ++ L) errs dy).current.ty = .date := by
+      intro L; simp [Tx.toks, Tx.headerToks, tokP]
+    cases ts with
+    | nil =>
+      have hpt := parseTransaction_toks cls t hj.1 ln o (eofP (ln + 1 + t.postings.length) (o + t.print.length)) []
+        errs dy (by simp [eofP_ty]) rfl
+      refine ⟨⟨[], eofP (ln + 1 + t.postings.length) (o + t.print.length), errs, dy⟩, ?_, rfl⟩
+      simp only [toksFrom]
+      unfold parseJournalF journalStep
+      simp only [hdate, reduceCtorEq, if_false, if_true, hpt]
+      cases n with
+      | zero => simp [parseJournalF, jpush, jempty, expectedTxs]
+      | succ n => simp [parseJournalF, eofP_ty, jpush, jempty, expectedTxs]
+    | cons t2 ts =>
+      obtain ⟨n, rfl⟩ : ∃ m, n = m + 1 := ⟨n - 1, by simp at hn; omega⟩
+      have hpt := parseTransaction_toks cls t hj.1 ln o (nlP (ln + 1 + t.postings.length) (o + t.print.length) 0)
+        (toksFrom (t2 :: ts) (ln + t.postings.length + 2) (o + t.print.length + 1)) errs dy
+        (by simp [nlP_ty]) (by simp [nlP_pos])
+      obtain ⟨st', h1, h2⟩ := ih hj.2 (ln + t.postings.length + 2) (o + t.print.length + 1) n errs dy
+        (by simp only [List.length_cons] at hn ⊢; omega)
+      refine ⟨st', ?_, h2⟩
+      simp only [toksFrom]
+      unfold parseJournalF journalStep
+      simp only [hdate, reduceCtorEq, if_false, if_true, hpt]
+      unfold parseJournalF journalStep
+      simp only [nlP_ty, reduceCtorEq, if_false, if_true, advance_stOf, h1]
+      simp [jpush, expectedTxs]
+
+/-- **`Parse` on the token stream of a printed journal.** -/
+theorem parseTokens_toks (j : Journal) (hj : WF j = true) :
+    parseTokens defaultNumDeps cls (toksFrom j 1 0) = (expected j, []) := by
+  unfold parseTokens parseWith parseJournal
+  have e : advance (⟨listSrc, defaultNumDeps, cls⟩ : Env (List Token)) ⟨toksFrom j 1 0, eofToken, [], 0⟩ =
+      stOf (toksFrom j 1 0) [] 0 := advance_stOf cls _ _ _ _
+  simp only [e]
+  obtain ⟨st', h1, h2⟩ := parseJournalF_toks cls j hj 1 0
+    (fuelOf (E cls) (stOf (toksFrom j 1 0) [] 0)) [] 0
+    (Nat.le_trans (by have := toksFrom_length j 1 0; omega) (fuelOf_stOf cls _ _ _))
+  have h1' : parseJournalF (⟨listSrc, defaultNumDeps, cls⟩ : Env (List Token))
+      (fuelOf (⟨listSrc, defaultNumDeps, cls⟩ : Env (List Token)) (stOf (toksFrom j 1 0) [] 0))
+      (stOf (toksFrom j 1 0) [] 0) = (⟨expectedTxs j 1 0, [], [], []⟩, st') := h1
+  rw [h1']
+  simp [h2, expected]
+
 end HL.GCore
